@@ -38,6 +38,14 @@ def tasks(tier):
         for mode in ("uniaxial", "planar", "biaxial"):
             for state in (False, True):
                 ts.append(("%s.%s state=%s" % (cls, mode, state), "run_curve", dict(clsname=cls, mode=mode, state=state)))
+            if cls == "ViewMaterial":
+                # the root finder fails on the first attempt and succeeds on the retry; fails on both
+                ts.append(("%s.%s retry" % (cls, mode), "run_curve", dict(clsname=cls, mode=mode, state=False, fail=1)))
+                ts.append(("%s.%s fails" % (cls, mode), "run_curve", dict(clsname=cls, mode=mode, state=False, fail=2)))
+    # necessary for the uniaxial / biaxial clause: the predefined load cases constrain exactly the documented planes and components
+    for dim in (2, 3):
+        ts.append(("load cases dim=%d" % dim, "run_included", dict(modname="c08", fname="run_loadcases", kwargs=dict(dim=dim), oid="C09.O3",
+                                                             why="a homogeneous uniaxial / biaxial state needs the load case to prescribe exactly these unknowns")))
     ts.append(("characteristic curve", "run_curve_job", {}))
     return ts
 
@@ -59,9 +67,10 @@ class RecMat:
         return [Pm, new]
 
 
-def run_curve(col, clsname, mode, state):
+def run_curve(col, clsname, mode, state, fail=0):
     it = new_interp()
     roots = []
+    suffix = {0: "", 1: " [first root attempt fails]", 2: " [both root attempts fail]"}[fail]
 
     class Res:
         pass
@@ -73,8 +82,9 @@ def run_curve(col, clsname, mode, state):
         val = fun(trial)
         roots.append(dict(x0=x0, trial=trial, val=val, ncalls=len(mat.calls) - before, first=before))
         r = Res()
-        r.success = True
-        r.x = symarray("s3", (n,), positive=True)
+        r.success = len(roots) > fail
+        # the solution of a failed attempt is not a root: a different symbol
+        r.x = symarray("s3" if r.success else "sfail%d" % len(roots), (n,), positive=True)
         return r
 
     it.externals["scipy.optimize"] = ExtModule("scipy.optimize", dict(root=root))
@@ -86,9 +96,23 @@ def run_curve(col, clsname, mode, state):
     pos = lambda a, b, op: ({"<": False, "<=": False, ">": True, ">=": True}[op] if (b.is_const() or True) else None)
     ring.ORDER_ORACLE[0] = pos
     try:
-        out = it.call_method(view, mode, [])
+        try:
+            out = it.call_method(view, mode, [])
+        except InterpRaise as e:
+            out = e
     finally:
         ring.ORDER_ORACLE[0] = None
+    if fail == 2:
+        col.add("C09.O1", "%s.%s%s" % (clsname, mode, suffix), "when the transverse stretch cannot be found the curve is not reported: an exception is raised",
+                isinstance(out, InterpRaise) and isinstance(out.exc, ValueError) and len(roots) == 2, str(out)[:120])
+        finish_info(col, it)
+        return
+    if isinstance(out, InterpRaise):
+        raise out
+    if fail == 1:
+        x0 = npmodel.to_obj(np.asarray(roots[1]["x0"])).reshape(-1) if len(roots) == 2 else []
+        col.add("C09.O1", "%s.%s retry start" % (clsname, mode), "after a failed first attempt the root finder is restarted once from transverse stretches 1",
+                len(roots) == 2 and all(is_zero(P(v) - ONE) for v in x0), "%d attempts" % len(roots))
     lam_out, force, label = out[0], npmodel.to_obj(np.asarray(out[1])).reshape(-1), out[2]
     where = method_where(cls, mode)
     incompressible = clsname.endswith("Incompressible")
@@ -119,7 +143,7 @@ def run_curve(col, clsname, mode, state):
         okdiag = okdiag and o
         diag += dd
     bad = [k for k in range(n) if any(not is_zero(a - b) for a, b in zip(diag[k], expected_F(sol, k)))] if len(diag) == n else ["count %d" % len(diag)]
-    col.add("C09.O1", "%s.%s ansatz (state=%s)" % (clsname, mode, state),
+    col.add("C09.O1", "%s.%s ansatz (state=%s)%s" % (clsname, mode, state, suffix),
             "final deformation gradient is diag(l1, l2, l3) with the transverse stretches of this load case" + ("" if incompressible else " taken from the root finder's solution"),
             okdiag and not bad, "%s: increments %s" % (where, bad))
     # ---- reported force
@@ -138,7 +162,7 @@ def run_curve(col, clsname, mode, state):
             want = p11 - expected_F(sol, k)[2] * ring.inv(lam[k]) * p33
         if not is_zero(P(force[k]) - want):
             bad.append(k)
-    col.add("C09.O1", "%s.%s force (state=%s)" % (clsname, mode, state), "reported force == P11 of the final evaluation" + (" - l3/l1 P33 (hydrostatic pressure eliminated with P33 = 0)" if incompressible else ""),
+    col.add("C09.O1", "%s.%s force (state=%s)%s" % (clsname, mode, state, suffix), "reported force == P11 of the final evaluation" + (" - l3/l1 P33 (hydrostatic pressure eliminated with P33 = 0)" if incompressible else ""),
             not bad and all(is_zero(P(a) - b) for a, b in zip(npmodel.to_obj(np.asarray(lam_out)).reshape(-1), lam)), "%s: increments %s" % (where, bad))
     # ---- root function (compressible view only)
     if not incompressible:
@@ -157,7 +181,7 @@ def run_curve(col, clsname, mode, state):
                 Pk, q = ("P%d" % (r0["first"] + k), 0) if state else ("P%d" % r0["first"], k)
                 if not is_zero(P(val[k]) - sym("%s[2,2,0,%d]" % (Pk, q))):
                     bad.append(("P33", k))
-        col.add("C09.O1", "%s.%s root function (state=%s)" % (clsname, mode, state), "the root function evaluates the material at diag(l1, l2(l3), l3) for the trial l3 and returns P33", okr and not bad, "%s: %s" % (where, bad))
+        col.add("C09.O1", "%s.%s root function (state=%s)%s" % (clsname, mode, state, suffix), "the root function evaluates the material at diag(l1, l2(l3), l3) for the trial l3 and returns P33", okr and not bad, "%s: %s" % (where, bad))
     # ---- state threading
     if state:
         seq = final_calls
@@ -210,3 +234,9 @@ def run_curve_job(col):
                 method_where(CC, "_callback"))
     col.add("C09.O2", "CharacteristicCurve user callback", "the user callback is invoked with the same step, substep numbers and result", seen == [(0, 1, sub), (0, 1, sub)])
     finish_info(col, it)
+
+
+def run_included(col, modname, fname, kwargs, oid, why):
+    from ..common import include
+
+    include(col, modname, fname, kwargs, oid, why)
